@@ -40,7 +40,9 @@ Separate Extraction
   Choice.spec
   Dot.of_dfa_with
   Dot.of_regex_with
-  Dot.pinned
+  Dot.old
+  Dot.current
+  Dot.starts_at_zero
   Dot.patched
   Dot.mkvariant
   Dot.escape_dot
